@@ -28,7 +28,8 @@ SHARD = 500   # cases per coqc process (16 processes run at once)
 _WS = r"[ \t\n\r\f\v]"
 SPEC_MARKER = re.compile(r"<!--%s+_RENDERED%s+([^ \t\n\r\f\v>]+?)%s+-->" % (_WS, _WS, _WS))
 SPEC_PART = re.compile(r"([^ \t\n\r\f\v,>]+),([0-9A-Za-z_]+),([0-9a-f]*),([0-9a-f]*)")
-_ID = r'(?: data-djc-css-[0-9A-Za-z_]{6}="")?(?: data-djc-id-[0-9A-Za-z_]{6}="")*'
+# attributes of a placeholder that is the root element of components: id and css attributes, any order and number (be574c3)
+_ID = r'(?: data-djc-(?:id|css)-[0-9A-Za-z_]{6}="")*'
 SPEC_PH = re.compile(r'<link name="CSS_PLACEHOLDER"%s/?>|<script name="JS_PLACEHOLDER"%s></script>' % (_ID, _ID))
 SPEC_END = re.compile(r"</(head|body)\s*>")          # str mode: Unicode whitespace, lower-case names only
 
@@ -261,11 +262,21 @@ def piece_pool(world):
                '<link name="CSS_PLACEHOLDER" data-djc-css-a1b2c3="" data-djc-id-a1b2c3=""/>',
                '<link name="CSS_PLACEHOLDER" data-djc-id-a1b2c3="" data-djc-id-x_Y9z0="">',
                '<script name="JS_PLACEHOLDER" data-djc-id-a1b2c3=""></script>',
-               '<script name="JS_PLACEHOLDER" data-djc-css-99914b="" data-djc-id-a1b2c3="" data-djc-id-b2c3d4=""></script>'],
+               '<script name="JS_PLACEHOLDER" data-djc-css-99914b="" data-djc-id-a1b2c3="" data-djc-id-b2c3d4=""></script>',
+               # css attribute after / between / without id attributes, several css attributes (accepted since be574c3)
+               '<link name="CSS_PLACEHOLDER" data-djc-id-a1b2c3="" data-djc-css-a1b2c3="">',
+               '<link name="CSS_PLACEHOLDER" data-djc-id-a1b2c3="" data-djc-css-99914b="" data-djc-id-x_Y9z0=""/>',
+               '<link name="CSS_PLACEHOLDER" data-djc-css-99914b="">',
+               '<script name="JS_PLACEHOLDER" data-djc-id-a1b2c3="" data-djc-id-b2c3d4="" data-djc-css-99914b=""></script>',
+               '<script name="JS_PLACEHOLDER" data-djc-id-a1b2c3="" data-djc-css-99914b="" data-djc-id-b2c3d4=""></script>',
+               '<script name="JS_PLACEHOLDER" data-djc-css-99914b="" data-djc-css-0000aa=""></script>'],
         "phlike": ['<link name="CSS_PLACEHOLDER" >', '<link name="CSS_PLACEHOLDER" data-djc-id-a1b2c="">',
                    '<link name="CSS_PLACEHOLDER" data-djc-id-a1b2c3d="">', '<link name="css_placeholder">',
                    '<script name="JS_PLACEHOLDER">x</script>', '<script name="JS_PLACEHOLDER"/>',
-                   '<link name="CSS_PLACEHOLDER" data-djc-id-a1b2c3="" data-djc-css-a1b2c3="">',
+                   '<link name="CSS_PLACEHOLDER" data-djc-id-a1b2c3="" data-djc-js-a1b2c3="">',
+                   '<link name="CSS_PLACEHOLDER" data-djc-id-a1b2c3="" data-djc-css-a1b2c="">',
+                   '<script name="JS_PLACEHOLDER" data-djc-css-99914b=""data-djc-id-a1b2c3=""></script>',
+                   '<script name="JS_PLACEHOLDER" data-djc-cssid-99914b=""></script>',
                    '<link name="CSS_PLACEHOLDER" data-djc-id-é1b2c3="">', '<script name="JS_PLACEHOLDER"></script',
                    '<link name="CSS_PLACEHOLDER"//>'],
         "marker": [A, B, mk["C08M"], mk["C08N"], mk["C08Кн"], A.replace("<!-- ", "<!--\t\n "), B.replace(" -->", "\r\f\v-->"),
@@ -347,6 +358,30 @@ def gen_endtag_in_inserted(chk, world, thorough):
         for _ in range(rng.randint(0, 6)):
             pieces.insert(rng.randint(0, len(pieces)), rng.choice(pool[rng.choice(["text", "end", "end", "marker", "split", "ph"])]))
         yield pieces, "document", rng.choice(["str", "bytes", "safe"]), "endtag-in-inserted"
+
+
+def ph_attr_variants(maxn):
+    """Both placeholders with every sequence of <= maxn attributes over {id, css} (and '/' for the link)."""
+    ida, cssa = ' data-djc-id-a1b2c3=""', ' data-djc-css-99914b=""'
+    out = []
+    for n in range(0, maxn + 1):
+        for seq in itertools.product((ida, cssa), repeat=n):
+            attrs = "".join(seq)
+            out.append('<link name="CSS_PLACEHOLDER"%s>' % attrs)
+            out.append('<link name="CSS_PLACEHOLDER"%s/>' % attrs)
+            out.append('<script name="JS_PLACEHOLDER"%s></script>' % attrs)
+    return out
+
+
+def gen_ph_attrs(chk, world, thorough):
+    """Placeholders that are root elements of components: css attributes before / after / between id attributes."""
+    A = world.marker["C08A"]
+    n = 0
+    for ph in ph_attr_variants(4 if thorough else 3):
+        for pieces in ([A, "<head>", ph, "</head><body>x</body >"], [A, "</body>", ph, "</head>"], [ph, A, ph]):
+            for ty in ("document", "fragment") if n % 2 == 0 else ("document",):
+                yield pieces, ty, ("str", "bytes", "safe")[n % 3], "placeholder-attributes"
+            n += 1
 
 
 CTYPES = ["text/html", "text/html; charset=utf-8", "text/htmlx", "text/htm", "TEXT/HTML", "application/json", "text/plain",
@@ -465,6 +500,8 @@ def run(tier, seed):
         one_case(chk, world, tab, pieces, ty, kind, label, cases)
     for pieces, ty, kind, label in gen_endtag_in_inserted(chk, world, thorough):
         one_case(chk, world, tab, pieces, ty, kind, label, cases)
+    for pieces, ty, kind, label in gen_ph_attrs(chk, world, thorough):
+        one_case(chk, world, tab, pieces, ty, kind, label, cases)
     phase("render-impl+oracle")
     bad = c08_util.coq_eval_cases("C08", "render", IMPORTS, "render_case", "check_render", [t for t, _ in cases], tab.by_name, shard=SHARD)
     for i in bad[:20]:
@@ -519,7 +556,7 @@ def run(tier, seed):
     alph = {
         "marker": ["<!--", " ", "\t", "_RENDERED", "a,b,,", ">", "-->", "-", "\u00a0", "x"],
         "ph": ['<link name="CSS_PLACEHOLDER"', '<script name="JS_PLACEHOLDER"', ' data-djc-css-a1b2c3=""', ' data-djc-id-a1_2c3=""',
-               ' data-djc-id-a1b2c=""', "/", ">", "></script>", " ", "é"],
+               ' data-djc-id-a1b2c=""', "/", ">", "></script>", " ", "é", ' data-djc-js-a1b2c3=""'],
         "end": ["</head", "</body", "</", "head", ">", " ", "\u00a0", "\u200b", "<", "/", "\n", "</HEAD", "x"],
     }
     strings = []
@@ -531,6 +568,13 @@ def run(tier, seed):
     strings = strings[: (20000 if thorough else 4000)]
     for _ in range(2000 if thorough else 400):
         strings.append("".join(rng.choice(pool[rng.choice(list(pool))]) for _ in range(rng.randint(1, 6))))
+    # always: both placeholders with every sequence of <= 3 (thorough 4) attributes over {id, css, a 5-character id (no match)},
+    # alone and embedded in text
+    for n_at in range(0, (4 if thorough else 3) + 1):
+        for seq in itertools.product((' data-djc-id-a1_2c3=""', ' data-djc-css-a1b2c3=""', ' data-djc-id-a1b2c=""'), repeat=n_at):
+            for op, cl in (('<link name="CSS_PLACEHOLDER"', ">"), ('<link name="CSS_PLACEHOLDER"', "/>"), ('<script name="JS_PLACEHOLDER"', "></script>")):
+                strings.append(op + "".join(seq) + cl)
+                strings.append("é" + op + "".join(seq) + cl + op)
 
     def spans_b(rx, s):
         b = s.encode()
@@ -581,11 +625,13 @@ def run(tier, seed):
         rule="documents = all arrangements of <= 4 (thorough: + a third of the 5-piece ones) pieces from a 9-piece alphabet (non-ASCII text, "
              "</head>, </body >, both placeholders, a real marker, the halves '</he' 'ad>', </HEAD>); the marker of a component whose JS holds "
              "'</head>' and whose CSS holds '</body>' (and non-ASCII text) followed by all arrangements of <= 4 pieces from a 7-piece alphabet "
-             "(both end tags, both placeholders, text, the halves '</head' '>'); seeded random documents of 2..12 pieces from a 77-piece pool "
-             "(text, 8 end-tag variants, 11 end-tag look-alikes, 7 placeholder variants, 10 placeholder look-alikes, real markers of 6 components "
+             "(both end tags, both placeholders, text, the halves '</head' '>'); both placeholders with every sequence of <= 3 attributes "
+             "over {data-djc-id, data-djc-css} in 3 page shapes; seeded random documents of 2..12 pieces from an 86-piece pool "
+             "(text, 8 end-tag variants, 11 end-tag look-alikes, 13 placeholder variants incl. css attributes before / after / between id "
+             "attributes, 13 placeholder look-alikes, real markers of 6 components "
              "with whitespace variants, rendered components, 9 marker look-alikes, split tokens) x {document, fragment} x {str, SafeString, "
-             "UTF-8 bytes}; malformed / unknown-hash markers; middleware x 11 content types x streaming; matcher differential on all strings "
-             "<= 4 pieces over each pattern's alphabet. Non-trivial = at least one real marker and at least one end tag (and no error "
+             "UTF-8 bytes}; malformed / unknown-hash markers; middleware x 11 content types x streaming; matcher differential on strings "
+             "<= 4 pieces over each pattern's alphabet (sample) + every placeholder with <= 3 attributes over {id, css, malformed id}. Non-trivial = at least one real marker and at least one end tag (and no error "
              "outcome). Distinct = distinct (document, type, input kind).",
         explanation="theorems of Props/C08.v re-checked by coqc (main theorem: model = one-pass specification for all documents); the Gallina "
                     "model is evaluated by vm_compute on EVERY generated case and compared with the observed result (output symbols, result "
